@@ -118,8 +118,11 @@ func setupFor(sc scenario, base string) func() *schedmc.Exec {
 		for ti, calls := range sc.threads {
 			bodies = append(bodies, func() {
 				for _, c := range calls {
-					clock++
-					inv := clock
+					inv := 0
+					if !schedmc.FreeRunning {
+						clock++
+						inv = clock
+					}
 					var first, n uint64
 					if c.kind == "tso" {
 						r, err := svc.Tso(context.Background(), &pb.TsoRequest{Count: c.count})
@@ -133,6 +136,9 @@ func setupFor(sc scenario, base string) func() *schedmc.Exec {
 							continue
 						}
 						first, n = r.GetFirstId(), r.GetCount()
+					}
+					if schedmc.FreeRunning {
+						continue // free-running -race pass: no oracle bookkeeping
 					}
 					clock++
 					resps = append(resps, resp{c.kind, first, first + n - 1, inv, clock, ti})
@@ -199,6 +205,15 @@ func setupFor(sc scenario, base string) func() *schedmc.Exec {
 }
 
 func main() {
+	if os.Getenv("VERIF_PROP") == "C27-race" {
+		// supporting pass: the same thread bodies, free-running under the race detector
+		r := vr.Start("C27-race")
+		var scs []schedmc.Scenario
+		for _, sc := range scenarios(true) {
+			scs = append(scs, schedmc.Scenario{Name: sc.name, Setup: setupFor(sc, r.Scratch())})
+		}
+		schedmc.FreeRunMain(r, scs, r.Pick(100, 1000))
+	}
 	r := vr.Start("C27")
 	bound := r.Pick(3, 5)
 	if r.ReplayPath != "" {
